@@ -521,7 +521,10 @@ func ruleContentChecksumVerified(c *Check, p *Program, rule string) {
 	isSum := func(v ssa.Value) bool {
 		return derivesFromCall(v, func(f *ssa.Function) bool { return f.Pkg != nil && f.Pkg.Pkg.Path() == pkgXXH && f.Name() == "Sum32" })
 	}
-	isStored := func(v ssa.Value) bool { return !isSum(v) && loadField(v) == "Frame.Checksum" }
+	// the stored value: the word read from the source here, through the field or directly
+	isStored := func(v ssa.Value) bool {
+		return !isSum(v) && (loadField(v) == "Frame.Checksum" || derivesFromCall(v, isSourceRead32))
+	}
 	edges := findEqEdges(cr, isSum, isStored)
 	if len(edges) != 1 {
 		c.Fail(rule, "CloseR#contentchecksum-compare", p.Pos(cr.Pos()), "the content checksum read from the frame is compared with the running hash", fmt.Sprintf("found %d comparisons of checksum.Sum32() with Frame.Checksum (need 1)", len(edges)))
@@ -529,21 +532,40 @@ func ruleContentChecksumVerified(c *Check, p *Program, rule string) {
 	}
 	e := edges[0]
 	c.Sites++
-	reach := reachWithoutEdge(cr, e.ifi.Block(), e.eqIx)
+	// search from the entry without the equal edge, without the legacy edge and without the
+	// "no content checksum" edge: no accepting return may be reachable
 	ok := true
 	var why []string
-	allInstrs(cr, func(in ssa.Instruction) {
-		r, isR := in.(*ssa.Return)
-		if !isR || len(r.Results) != 1 || !mayBeNilErr(r.Results[0], in.Block()) || !reach[in.Block()] {
-			return
+	{
+		seen := map[*ssa.BasicBlock]bool{}
+		var walk func(b *ssa.BasicBlock)
+		walk = func(b *ssa.BasicBlock) {
+			if seen[b] {
+				return
+			}
+			seen[b] = true
+			for _, in := range b.Instrs {
+				if r, isR := in.(*ssa.Return); isR && len(r.Results) == 1 && mayBeNilErr(r.Results[0], b) {
+					ok = false
+					why = append(why, "the accepting return at "+p.InstrPos(in)+" is reachable without the content checksum comparison having succeeded and is not confined to legacy / checksum-less frames")
+				}
+			}
+			ifi, isIf := b.Instrs[len(b.Instrs)-1].(*ssa.If)
+			for k, s := range b.Succs {
+				if b == e.ifi.Block() && k == e.eqIx {
+					continue
+				}
+				if isIf {
+					a := atomOf(ifi.Cond, k == 0)
+					if (a.Kind == "legacy" && a.Val) || (a.Kind == "flag" && a.Name == "ContentChecksum" && !a.Val) {
+						continue
+					}
+				}
+				walk(s)
+			}
 		}
-		ats := atomsOfBlock(in.Block())
-		if hasAtom(ats, "legacy", "", true) || hasAtom(ats, "flag", "ContentChecksum", false) {
-			return
-		}
-		ok = false
-		why = append(why, "the accepting return at "+p.InstrPos(in)+" is reachable without the content checksum comparison having succeeded and is not confined to legacy / checksum-less frames")
-	})
+		walk(cr.Blocks[0])
+	}
 	c.Cond(ok, rule, "CloseR#accept-needs-contentchecksum-equal", p.InstrPos(e.cmp), "every accepting return of CloseR is behind the equal edge of the content checksum comparison, or confined to legacy frames / frames without content checksum", "edge deletion leaves only the legacy and flag-off returns", strings.Join(why, "; "))
 	fcs, _ := errSentinel(p, "ErrInvalidFrameChecksum")
 	saw := false
